@@ -387,7 +387,7 @@ class _ScopeContext:
 
         else:
             if a := ast.ifs:
-                stack.extend(a)
+                stack.extend(a[::-1])
 
             if (a := ast.iter) is not self.scope_first_iter:
                 stack.append(a)
